@@ -86,4 +86,4 @@ package keeper
 //@ loop #1
 //@   invariant true
 //@ loop #2
-//@   invariant len(operatorPowers) == len(signedOperatorList)
+//@   invariant[C20.aee.pertask] len(operatorPowers) == len(signedOperatorList)
